@@ -73,6 +73,15 @@ Theorem C03_gmm_spherical_map_true_class_partial (D : nat) (muj muk y : nat -> R
 Proof. exact (gmm_sph_map D muj muk y c pij pik). Qed.
 Print Assumptions C03_gmm_spherical_map_true_class_partial.
 
+(* GMM with a shared diagonal covariance (DiagonalGaussian.log_pdf): classes ranked by weight-adjusted Mahalanobis distance *)
+Theorem C03_gmm_diagonal_map_true_class_partial (D : nat) (muj muk y cov : nat -> R) (pij pik : R) :
+  (forall i, (i < D)%nat -> 0 < cov i) -> 0 < pij -> 0 < pik ->
+  rsum D (fun i => / cov i * ((y i - muj i) * (y i - muj i))) + 2 * ln (pik / pij)
+    < rsum D (fun i => / cov i * ((y i - muk i) * (y i - muk i))) ->
+  ln pik + gauss_diag_logpdf RO PI D muk y cov < ln pij + gauss_diag_logpdf RO PI D muj y cov.
+Proof. exact (gmm_diag_map D muj muk y cov pij pik). Qed.
+Print Assumptions C03_gmm_diagonal_map_true_class_partial.
+
 (* non-vacuity: the property's domain |cos| <= 0.3 (c2 <= 0.09), floor 1e-10, D = 2, equal weights *)
 Example C03_hypotheses_satisfiable :
   0 < / 10000000000 < 1 /\ 0 <= 9 / 100 < 1 /\ 1 / 1 < qform_rank1 (/ 10000000000) (9 / 100) ^ 2.
